@@ -157,6 +157,8 @@ def run(rep, tier, root=None):
         b_ = o.attrs.get("B_mat")
         bbt = A("cov_mat_xx") - Rat.atom(Fn("dot", (A("A_mat"), A("cov_mat_zx"))))
         wantb = Rat.atom(Fn("dot", (Rat.atom(Fn("svd_u", (bbt,))), Rat.atom(Fn("diagmat", (Rat.atom(Fn("svd_w", (bbt,))) ** 0.5,))))))
+        from ..common import canon_matrix_forms
+        b_ = canon_matrix_forms(b_) if b_ is not None else None
         rep.check(b_ is not None and same_value(b_, wantb), "S7.exact-recursion", "%s.makeBMatrix: B B^T = Cov_xx - A Cov_zx" % cls.fq,
                   "B = %s" % nf(b_, 200), m.where())
     purity_obligations(rep, ix, [f for f in mod.all_functions()], "S8.no-shared-state",
